@@ -98,6 +98,11 @@ vector<GlobalGraph::Edge> GlobalGraph::unlink(Graph::NodeId nodeA, Graph::NodeId
   // unlinking in the structure
   vector<GlobalGraph::Edge> deletedEdges; // what edges ID are affected by this unlinking
   deletedEdges.push_back(unlinkInNodeStructure_(nodeA, nodeB));
+  if (!directed_)
+  {
+    // an undirected relation is stored in both directions (see link())
+    unlinkInNodeStructure_(nodeB, nodeA);
+  }
 
   for (auto& currEdgeToDelete : deletedEdges)
   {
@@ -194,7 +199,7 @@ unsigned int GlobalGraph::unlinkInNodeStructure_(const GlobalGraph::Node& nodeA,
   // Backwards
   nodeStructureType::iterator nodeBRow = nodeStructure_.find(nodeB);
   map<GlobalGraph::Node, GlobalGraph::Edge>::iterator foundBackwardsRelation = nodeBRow->second.second.find(nodeA);
-  if (foundBackwardsRelation == nodeBRow->second.first.end())
+  if (foundBackwardsRelation == nodeBRow->second.second.end())
     throw Exception("GlobalGraph::unlinkInNodeStructure_ : no edge to erase " + TextTools::toString(nodeB) + "<-" + TextTools::toString(nodeA));
 
   nodeBRow->second.second.erase(foundBackwardsRelation);
